@@ -276,9 +276,22 @@ def py_tokens(expr):
     (back-ticks restored) and the white space originally present between neighbours"""
     src, names = LX.alias_backticks(expr)
     src = src.strip()
-    toks = []
+    toks, fdepth, fstart = [], 0, None
     for t in pytokenize.generate_tokens(io.StringIO(src).readline):
         if t.type in (pytokenize.NEWLINE, pytokenize.NL, pytokenize.ENDMARKER, pytokenize.INDENT, pytokenize.DEDENT):
+            continue
+        # an f-string is one atom (Python >= 3.12 tokenizes its parts separately)
+        if t.type == getattr(pytokenize, "FSTRING_START", -1):
+            if fdepth == 0:
+                fstart = t.start[1]
+            fdepth += 1
+            continue
+        if t.type == getattr(pytokenize, "FSTRING_END", -1):
+            fdepth -= 1
+            if fdepth == 0:
+                toks.append((pytokenize.STRING, src[fstart:t.end[1]], fstart, t.end[1]))
+            continue
+        if fdepth:
             continue
         toks.append((t.type, t.string, t.start[1], t.end[1]))
     strings, gaps = [], []
@@ -310,24 +323,13 @@ class PyCase:
         self.expr, self.bare_ok = expr, bare_ok
         self.toks, self.kinds, gaps = py_tokens(expr)
         self.fixed = [needs_space(self.toks[i], self.toks[i + 1], gaps[i]) for i in range(len(gaps))]
-        depth, self.depth_after = 0, []
-        for t in self.toks:  # bracket depth at the boundary that follows each token
+        depth, self.depth_at = 0, []   # bracket depth at the boundary after token i
+        for t in self.toks[:-1]:
             if t in ("(", "[", "{"):
                 depth += 1
-            self.depth_after.append(depth)
-            if t in (")", "]", "}"):
-                pass
-        # depth *before* the next token matters for closers: recompute properly
-        depth, self.depth_at = 0, []
-        for i, t in enumerate(self.toks[:-1]):
-            if t in ("(", "[", "{"):
-                depth += 1
-            nxt = self.toks[i + 1]
-            d = depth - 1 if nxt in (")", "]", "}") else depth
-            if t in (")", "]", "}"):
+            elif t in (")", "]", "}"):
                 depth -= 1
-                d = depth - 1 if nxt in (")", "]", "}") else depth
-            self.depth_at.append(depth if nxt not in (")", "]", "}") else depth)
+            self.depth_at.append(depth)
         self.strings = [t for t, k in zip(self.toks, self.kinds) if k == pytokenize.STRING]
         self.ast = LX.python_ast(expr)
         feats = []
@@ -496,9 +498,15 @@ def wrap_first_argument(case):
             depth -= 1
         j += 1
     arg = toks[o + 1:j]
-    if not arg or arg[0] in ("*", "**") or "=" in arg[:2] or ":" in [t for t in arg if t == ":"][:1] and toks[o] == "[" and depth == 0 and ":" in arg:
-        return None
-    if "lambda" in arg[:1] or "for" in arg:
+    d, top = 0, []
+    for t in arg:
+        if t in (")", "]", "}"):
+            d -= 1
+        if d == 0:
+            top.append(t)
+        if t in ("(", "[", "{"):
+            d += 1
+    if not arg or arg[0] in ("*", "**") or (len(arg) >= 2 and arg[1] == "=") or ":" in top or "for" in top:
         return None
     return toks[:o + 1] + ["("] + arg + [")"] + toks[j:]
 
